@@ -1,13 +1,212 @@
-(* Props/C07.v -- property C07 (placeholder: first increment, abstract merge core only). *)
-From LV Require Import Base.Bytes Model.Obj Model.Save Model.XrefMerge Proofs.XrefMergeProofs.
+(* Props/C07.v -- property C07: incremental updates -- latest revision wins, history preserved.
+   Statements only; proofs live in Proofs/{XrefMergeProofs,XrefLoadProofs,IncrementalProofs,C07Witness}.v.
 
-(* Xref::merge over any chain of sections: every object number gets the entry of the newest section that has one *)
+   The full file-level statement is the proposition C07_full of Proofs/C07Full.v (a Definition over the
+   byte-level reference writer and loader, which do not exist in Coq yet).  What is proved here is
+   about the models Model/XrefMerge.v (Xref::merge, the Prev loop, object loading, object-stream
+   expansion of src/reader.rs + src/xref.rs as of commits f28e935/44beb46) and Model/Incremental.v
+   (src/incremental_document.rs + IncrementalDocument::save_internal as of bb85a17), both tied to the
+   crate by ./check C07 (merged tables, loaded objects, save output byte for byte).
+
+   Vocabulary
+     layout        what parser::xref_and_trailer / parser::indirect_object / ObjectStream::new find at which
+                   offset of a file (sections with their RAW entries, objects with the id written there)
+     first_def     the entry of the newest table in a list that has one for the number
+     chain_layout  the sections reachable from startxref form a Prev chain without cycle and the newest
+                   trailer has no XRefStm key (that excludes hybrid files: open finding hybrid-update)
+     KnownClass    the three open findings, decided on the input history (Spec/History.v)            *)
+From LV Require Import Base.Bytes Base.Sx Model.Obj Model.Save Model.XrefMerge Model.Incremental Spec.History
+  Proofs.XrefMergeProofs Proofs.XrefLoadProofs Proofs.IncrementalProofs Proofs.C07Full Proofs.C07Witness.
+
+Local Open Scope N_scope.
+
+(* ---------------------------------------------------------------------------------------------------------
+   A. Latest revision wins (loader side)
+   --------------------------------------------------------------------------------------------------------- *)
+
+(* (A1) Xref::merge over ANY list of sections (x0 the newest, then in the order the Prev loop reads them):
+   every object number gets the entry of the newest section that has one. *)
 Theorem C07_merge_chain_latest : forall (revs : list xref) (x0 : xref) (k : N),
   xget (xr_entries (fold_left xmerge revs x0)) k = first_def (map xr_entries (x0 :: revs)) k.
 Proof. exact merge_chain_latest. Qed.
 
+(* (A2) On every file whose sections form a Prev chain the reader computes exactly that merge: the table it
+   ends with gives each number the entry of the newest section having one; trailer, xref_start and table
+   type are those of the newest section.  (Size/max_id fit u32 -- the code returns InvalidXref otherwise.) *)
+Theorem C07_read_chain_partial : forall L s0 c fuel,
+  chain_layout L s0 c -> (length c <= fuel)%nat ->
+  (xt_max_id (xr_entries (fold_left xmerge (map (fun ps => sec_xref (snd ps)) c) (sec_xref s0))) + 1 < 4294967296) ->
+  exists m, read_xref fuel L = LOk m /\
+            m_trailer m = dict_swap_remove (s_trailer s0) K_Prev /\
+            m_start m = Z.to_N (l_startxref L) /\
+            xr_stream (m_xref m) = s_stream s0 /\
+            forall k, xget (xr_entries (m_xref m)) k = first_def (chain_tabs s0 c) k.
+Proof. exact read_xref_chain. Qed.
+
+(* (A3) The loader always terminates (cycles of Prev are cut by `already_seen`) within the stated fuel,
+   on ANY layout. *)
 Theorem C07_load_terminates : forall L, load_abs (load_fuel L) L <> LOutOfFuel.
 Proof. exact load_never_out_of_fuel. Qed.
 
+Theorem C07_prev_cycle_is_cut : forall fuel L x tr seen p,
+  In p seen -> prev_loop fuel L x tr seen (Some (OInt p)) = LOk (x, tr).
+Proof. exact prev_loop_seen. Qed.
+
+(* (A4) From the table to the objects.  An object the merged table lists as in use (Normal) is the object
+   found at that offset and nothing replaces it (object-stream members are only added). *)
+Theorem C07_normal_entry_wins : forall L enc t l1 kv l2 p,
+  t = l1 ++ kv :: l2 ->
+  entry_object L enc kv = Some p ->
+  (forall kv' p', In kv' l2 -> entry_object L enc kv' = Some p' -> p_id p' <> p_id p) ->
+  lookup (load_objects L enc t) (p_id p) = Some (p_obj p).
+Proof. exact load_normal_wins. Qed.
+
+(* (A5) An object the merged table places in object stream c (Compressed) is the member of THAT stream,
+   whichever other (older) object streams hold the same number: expected refutation (i) of the design,
+   repaired in the crate by 44beb46 -- the model follows the repaired code. *)
+Theorem C07_compressed_entry_names_container : forall L enc t x c i o b1 ms b2,
+  lookup (normals L enc t) x = None ->
+  xget t (fst x) = Some (XCompressed c i) ->
+  blocks L enc t = b1 ++ (c, ms) :: b2 ->
+  (forall b, In b b1 -> fst b <> c) ->
+  lookup ms x = Some o ->
+  lookup (load_objects L enc t) x = Some o.
+Proof. exact load_compressed_named. Qed.
+
+(* (A6) A FREE entry is no entry: a section that only frees k leaves no trace in the table it contributes,
+   so by (A1) an older in-use entry for k survives the merge.  This is the root of the open finding
+   freed-comes-back; (A7) shows it on a concrete history. *)
+Theorem C07_free_entry_leaves_no_trace : forall stream raw k,
+  (forall e, In (k, e) raw -> exists g, e = RFree g) ->
+  xget (parse_entries stream raw) k = None.
+Proof. exact only_free_no_entry. Qed.
+
+(* (A7) The full claim is REFUTED on the unrepaired parts of the reader; each witness is a history of the
+   known class, its layout as the reference writer produces it, and the deviation of the loaded objects.
+   The same cases are replayed on the real crate by ./check C07 (known_findings.json). *)
+Theorem C07_freed_refuted :
+  KnownClass h_freed = true /\
+  lookup (latest_wins (map forget h_freed)) (2, 0) = None /\
+  exists m, loaded_user L_freed = Some m /\ lookup m (2, 0) = Some (OInt 5) /\ m <> latest_wins (map forget h_freed).
+Proof. exact freed_refuted. Qed.
+
+Theorem C07_hybrid_refuted :
+  KnownClass h_hybrid = true /\
+  lookup (latest_wins (map forget h_hybrid)) (2, 0) = Some (OInt 7) /\
+  exists m, loaded_user L_hybrid = Some m /\ lookup m (2, 0) = Some (OInt 5).
+Proof. exact hybrid_refuted. Qed.
+
+Theorem C07_stale_generation_refuted :
+  KnownClass h_stale = true /\
+  lookup (latest_wins (map forget h_stale)) (2, 0) = None /\
+  exists m, loaded_user L_stale = Some m /\ lookup m (2, 1) = Some (OInt 6) /\ lookup m (2, 0) = Some (OInt 5).
+Proof. exact stale_generation_refuted. Qed.
+
+(* non-vacuity: a three-revision history outside the known class (table and stream sections, an object
+   updated from one object stream into another, one moved out of an object stream) loads to exactly
+   latest_wins, and its layout meets the chain hypotheses of (A2) *)
+Theorem C07_example_latest_wins :
+  KnownClass h_ok = false /\ loaded_user L_ok = Some (latest_wins (map forget h_ok)).
+Proof. exact ok_latest_wins. Qed.
+
+Theorem C07_example_chain :
+  exists s0 s1 s2 p1 p2, chain_layout L_ok s0 [(p1, s1); (p2, s2)] /\ (p2 < p1 < l_startxref L_ok)%Z.
+Proof. exact ok_is_chain_layout. Qed.
+
+(* ---------------------------------------------------------------------------------------------------------
+   B. Incremental save (writer side)
+   --------------------------------------------------------------------------------------------------------- *)
+
+(* (B1) inc_save_prefix: for ALL previous bytes and ALL new documents -- also when the save fails half way --
+   the output starts with the previous bytes, unchanged. *)
+Theorem C07_inc_save_prefix : forall s,
+  firstn (length (i_bytes s)) (io_bytes (inc_save s)) = i_bytes s.
+Proof. exact inc_save_prefix. Qed.
+
+(* (B2) inc_save_only_new: a successful save appends, after separator + header + binary mark, exactly the
+   indirect objects of the new document (those the writer does not skip), ONE cross-reference section and
+   startxref = its offset; the section lists exactly the new objects, each at the byte where its
+   "id gen obj" starts, counted from the file header (u32 truncation as in the code). *)
+Theorem C07_inc_save_only_new : forall s,
+  io_status (inc_save s) = IncOk ->
+  let nd := xd_doc (i_new s) in
+  let objs := flat_map wio (written (d_objects nd)) in
+  let start := start_count (i_bytes s) + blen (inc_head s) in
+  exists x,
+    io_bytes (inc_save s) =
+      i_bytes s ++ inc_head s ++ objs ++ inc_xref_part s x (start + blen objs) ++ startxref_bytes (start + blen objs) /\
+    io_start (inc_save s) = start + blen objs /\
+    (forall n, ~ In n (numbers (written (d_objects nd))) -> xget x n = None) /\
+    (forall l1 id g o l2, written (d_objects nd) = l1 ++ ((id, g), o) :: l2 -> ~ In id (numbers l2) ->
+       xget x id = Some (XNormal ((start + blen (flat_map wio l1)) mod u32_mod) g)).
+Proof. exact inc_save_only_new. Qed.
+
+(* (B3) prev_view_unchanged: after create_from and ANY sequence of the modelled edits (set_object, add_object,
+   opt_clone_object_to_new_document, get_or_create_resources, add_xobject) the previous bytes and the
+   previous view are untouched, the trailer still carries Prev = the previous xref_start, and the save
+   output still starts with the previous bytes. *)
+Theorem C07_prev_view_unchanged : forall prev_bytes prev edits,
+  let s := fold_left apply_edit edits (create_from prev_bytes prev) in
+  i_bytes s = prev_bytes /\ i_prev s = prev /\
+  dict_get (d_trailer (xd_doc (i_new s))) K_Prev = Some (OInt (Z.of_N (xd_start prev))) /\
+  firstn (length prev_bytes) (io_bytes (inc_save s)) = prev_bytes.
+Proof. exact prev_view_unchanged. Qed.
+
+(* the trailer written by the table variant still has that Prev *)
+Theorem C07_table_trailer_keeps_prev : forall s,
+  dict_get (trailer_table (xd_doc (i_new s))) K_Prev = dict_get (d_trailer (xd_doc (i_new s))) K_Prev.
+Proof. exact inc_table_trailer_prev. Qed.
+
+(* (B4) inc_save_reload, at the level of the cross-reference table (partial: the byte-level round trip of the
+   appended section and objects is C01's/C02's, not available yet; it enters as the layout): appending a
+   section whose Prev is the old startxref to a chain file gives a file on which the reader's table has,
+   for every number, the NEW entry if the new section has one and otherwise EXACTLY the entry it found
+   before the update; trailer and xref_start are the new section's. *)
+Theorem C07_reload_after_append_partial : forall L s0 c off sec objs len m fuel,
+  chain_layout L s0 c ->
+  read_xref fuel L = LOk m -> (length c <= fuel)%nat ->
+  (l_buflen L < off <= len)%Z ->
+  (forall p, In p (l_startxref L :: map fst c) -> (p <= l_buflen L)%Z) ->
+  dict_get (s_trailer sec) K_Prev = Some (OInt (l_startxref L)) ->
+  dict_get (dict_swap_remove (s_trailer sec) K_Prev) K_XRefStm = None ->
+  (xt_max_id (xr_entries (fold_left xmerge (map (fun ps => sec_xref (snd ps)) ((l_startxref L, s0) :: c)) (sec_xref sec))) + 1
+     < 4294967296) ->
+  exists m', read_xref (S fuel) (extend_layout L off sec objs len) = LOk m' /\
+             m_trailer m' = dict_swap_remove (s_trailer sec) K_Prev /\
+             m_start m' = Z.to_N off /\
+             forall k, xget (xr_entries (m_xref m')) k =
+                       match xget (parse_entries (s_stream sec) (s_raw sec)) k with
+                       | Some e => Some e
+                       | None => xget (xr_entries (m_xref m)) k
+                       end.
+Proof. exact reload_after_append. Qed.
+
+(* (B5) re-loadability for a further update, by induction over the history of saves: the file after the
+   update meets the hypotheses of (A2)/(B4) again, with a chain one section longer. *)
+Theorem C07_update_again_partial : forall L s0 c off sec objs len,
+  chain_layout L s0 c ->
+  (l_buflen L < off <= len)%Z ->
+  (forall p, In p (l_startxref L :: map fst c) -> (p <= l_buflen L)%Z) ->
+  dict_get (s_trailer sec) K_Prev = Some (OInt (l_startxref L)) ->
+  dict_get (dict_swap_remove (s_trailer sec) K_Prev) K_XRefStm = None ->
+  chain_layout (extend_layout L off sec objs len) sec ((l_startxref L, s0) :: c).
+Proof. exact extend_chain_layout. Qed.
+
 Print Assumptions C07_merge_chain_latest.
+Print Assumptions C07_read_chain_partial.
 Print Assumptions C07_load_terminates.
+Print Assumptions C07_prev_cycle_is_cut.
+Print Assumptions C07_normal_entry_wins.
+Print Assumptions C07_compressed_entry_names_container.
+Print Assumptions C07_free_entry_leaves_no_trace.
+Print Assumptions C07_freed_refuted.
+Print Assumptions C07_hybrid_refuted.
+Print Assumptions C07_stale_generation_refuted.
+Print Assumptions C07_example_latest_wins.
+Print Assumptions C07_example_chain.
+Print Assumptions C07_inc_save_prefix.
+Print Assumptions C07_inc_save_only_new.
+Print Assumptions C07_prev_view_unchanged.
+Print Assumptions C07_table_trailer_keeps_prev.
+Print Assumptions C07_reload_after_append_partial.
+Print Assumptions C07_update_again_partial.
